@@ -31,7 +31,9 @@ Encoding:
 
 * the attributes live in the shared cells of `K` (`Call.load/store`): cell 0 = `stopped` (0/1), 1 = `expire_time`,
   2 = `timeout`, 3 = `start_time`, 4 = `proc` (the process event), 5 = the number of callback invocations so far (the
-  state of the user's callback closure, which picks what the callback does to its own timer);
+  state of the user's callback closure, which picks what the callback does to its own timer); cell 6 is a *ghost*: the
+  number of processes the timer has started so far (not an attribute of the Python class; nothing in the program reads it
+  except to increment it; the abstraction function `absTimer` uses it to number the processes as the LTS does);
 * `Val` has no scalar constructor: a time is kept in a cell through the codec `TimeCell` (`dec (enc x) = some x`);
 * `K` has no call that reads `env.now`.  Every generator carries the instant of its next resumption in its local
   state: the instant it was started at, then `now + delay` for the delay it sleeps (the very expression the kernel's
@@ -87,6 +89,7 @@ def cTimeout : Nat := 2
 def cStart : Nat := 3
 def cProc : Nat := 4
 def cFired : Nat := 5
+def cStarted : Nat := 6
 
 def typeErr : Exc := ⟨"TypeError", []⟩
 
@@ -130,7 +133,10 @@ def tRestart (now tau : τ) (cont : Burst τ (TSt τ)) : Burst τ (TSt τ) :=
   .call (.interrupt p (.str "restart timer")) fun rp => match rp with
     | .unit =>                                                  -- alive, not the caller: self.proc.interrupt(…)
       .call (.spawn (.tmStart now)) fun rp => match rp with     -- self.proc = self.env.process(self.run(self.env))
-        | .ev p' => .call (.store cProc (.ev p')) fun _ => cont
+        | .ev p' =>
+          .call (.store cProc (.ev p')) fun _ =>
+          loadInt cStarted fun n => .call (.store cStarted (.int (n + 1))) fun _ =>       -- (ghost) one more process
+          cont
         | rp => bad rp
     | .err _ => cont                        -- `active_process is self.proc` or `not self.proc.is_alive`: nothing more
     | rp => bad rp
@@ -211,7 +217,7 @@ def initState (ctlFirst : Bool) (timeout : τ) (script : List (τ × CbOp τ)) :
   let s0 : KState τ (TSt τ) :=
     { now := Num.zero
       shared := [(cStopped, .int 0), (cExpire, TimeCell.enc (Num.zero + timeout)), (cTimeout, TimeCell.enc timeout),
-                 (cStart, TimeCell.enc (Num.zero : τ)), (cFired, .int 0)] }
+                 (cStart, TimeCell.enc (Num.zero : τ)), (cFired, .int 0), (cStarted, .int 1)] }
   if ctlFirst then mkTimer (doCall s0 0 (.spawn (.ctl Num.zero none script))).1
   else (doCall (mkTimer s0) 0 (.spawn (.ctl Num.zero none script))).1
 
@@ -282,6 +288,46 @@ def orun (auto : Bool) (cbs : List (Option (CbOp τ))) : OSt τ → List (HEv τ
 
 /-- the oracle's state for a timer created at instant 0 -/
 def o0 (timeout : τ) : OSt τ := { pending := some (Num.zero + timeout), timeout := timeout }
+
+/-! ## the abstraction function -/
+
+/-- a cell (`none` if unset) -/
+def cellVal (s : KState τ (TSt τ)) (k : Nat) : Val := ((s.shared.find? (·.1 == k)).map (·.2)).getD Val.none
+
+def cellTime (s : KState τ (TSt τ)) (k : Nat) : τ := (TimeCell.dec (cellVal s k)).getD Num.zero
+
+def cellNat (s : KState τ (TSt τ)) (k : Nat) : Nat :=
+  match cellVal s k with
+  | .int n => n.toNat
+  | _ => 0
+
+/-- the LTS status of a timer process: finished once its process event is triggered (`not is_alive`), else where its
+generator is suspended -/
+def statOf (s : KState τ (TSt τ)) (p : EvId) : Timer.PStat τ :=
+  if (s.ev p).out.isSome then .finished else
+  match s.proc? p with
+  | some { st := .tmSleep w, .. } => .sleeping w
+  | _ => .notStarted
+
+/-- the victim of the `Interruption` that waits in the agenda, if there is one -/
+def victimOf (s : KState τ (TSt τ)) : Option EvId :=
+  s.agenda.findSome? fun q => match (s.ev q.ev).kind with
+    | .intr p => some p
+    | _ => none
+
+/-- **abstraction function**: the LTS state a kernel state of this program stands for, read off the attribute cells, the
+process records, the event table and the agenda.  The processes are numbered in the order they were started: the
+current one is the last, a process with an `Interruption` on its way is the last but one, all others have finished. -/
+def absTimer (auto : Bool) (arg : Int) (s : KState τ (TSt τ)) : Timer.State τ :=
+  let n := cellNat s cStarted
+  let cur := match cellVal s cProc with | .ev p => p | _ => 0
+  let vic := (victimOf s).toList
+  { now := s.now, timeout := cellTime s cTimeout, expire := cellTime s cExpire, start := cellTime s cStart,
+    stopped := cellNat s cStopped != 0, auto := auto, args := [arg],
+    procs := List.replicate (n - 1 - vic.length) .finished ++ (vic.map (statOf s) ++ [statOf s cur]),
+    proc := n - 1,
+    uq := vic.map (fun _ => Timer.UEv.intr (n - 2)) ++
+      (match statOf s cur with | .notStarted => [Timer.UEv.init (n - 1)] | _ => []) }
 
 /-- the final state of `run()` if it returned, else `none` -/
 def finalState (r : RunResult τ (TSt τ)) : Option (KState τ (TSt τ)) :=
